@@ -16,12 +16,18 @@ SessPlain ==
     [prog |-> [C0 |-> Class(DefaultOpts, <<U1("t"), [RepCountF("r", U1("e"), SzField("t"), NoCond, 0) EXCEPT !.dflt = <<IntV(7)>>],
                                            [RefF("s", "C2") EXCEPT !.over = <<[n |-> "x", v |-> IntV(5)]>>]>>),
                C1 |-> Class(DefaultOpts, <<U1("a"), RefF("s", "C2"), RepCountF("k", RefF("e", "C2"), SzField("a"), NoCond, 0)>>),
-               C2 |-> Class(DefaultOpts, <<WithDflt(U1("x"), 3), U1("y")>>)],
-     classes |-> {"C0", "C1"},
-     raws |-> [C0 |-> {<<0, 1, 2>>, <<1, 9, 1, 2>>, <<2, 9>>}, C1 |-> {<<0, 1, 2>>, <<1, 1, 2, 3, 4>>}],
-     kws |-> [C0 |-> {<<>>, <<[n |-> "t", v |-> IntV(1)]>>}, C1 |-> {<<>>}],
-     sets |-> [C0 |-> {[n |-> "t", v |-> IntV(2)], [n |-> "r", v |-> ListV(<<IntV(1), IntV(2)>>)]}, C1 |-> {[n |-> "a", v |-> IntV(0)]}],
-     appendval |-> IntV(4)]
+               C2 |-> Class(DefaultOpts, <<WithDflt(U1("x"), 3), U1("y")>>),
+               \* a count expression that raises half-way for n = 0: a failed parse must not disturb later ones
+               C3 |-> Class(DefaultOpts, <<U1("n"), RepCountF("r", U1("e"), SzExpr(EBin("add", EC(1), EBin("floordiv", EC(2), EF("n"))), "deferred"), NoCond, 0)>>)],
+     classes |-> {"C0", "C1", "C3"},
+     raws |-> [C0 |-> {<<0, 1, 2>>, <<1, 9, 1, 2>>, <<2, 9>>}, C1 |-> {<<0, 1, 2>>, <<1, 1, 2, 3, 4>>},
+               C3 |-> {<<0, 5>>, <<1, 5, 6, 7>>, <<2, 5, 6>>}],
+     kws |-> [C0 |-> {<<>>, <<[n |-> "t", v |-> IntV(1)]>>}, C1 |-> {<<>>}, C3 |-> {<<>>}],
+     sets |-> [C0 |-> {[n |-> "t", v |-> IntV(2)], [n |-> "r", v |-> ListV(<<IntV(1), IntV(2)>>)]}, C1 |-> {[n |-> "a", v |-> IntV(0)]},
+               C3 |-> {[n |-> "n", v |-> IntV(1)]}],
+     appendval |-> IntV(4),
+     \* the classes are defined locally (prototypes are cloned by deep copy) and the user keeps the prototype instance
+     local |-> TRUE, protos |-> {[cls |-> "C0", f |-> "s", a |-> "x", v |-> 99], [cls |-> "C0", f |-> "s", a |-> "y", v |-> 98]}]
 \* a body ended by a regex delimiter that is not kept: the field object remembers the match (F2)
 SessRegex ==
     [prog |-> [C0 |-> Class(DefaultOpts, <<U1("n"), DataF("body", SzRegex("crlf", FALSE, TRUE)), U1("z")>>),
@@ -30,7 +36,7 @@ SessRegex ==
      raws |-> [C0 |-> {<<1, 65, 13, 10, 2>>, <<1, 66, 10, 3>>, <<1, 65>>}, C1 |-> {<<65, 88, 66, 0>>, <<65, 88, 88, 0>>}],
      kws |-> [C0 |-> {<<>>}, C1 |-> {<<>>}],
      sets |-> [C0 |-> {[n |-> "n", v |-> IntV(2)]}, C1 |-> {[n |-> "rest", v |-> BytesV(<<67>>)]}],
-     appendval |-> IntV(4)]
+     appendval |-> IntV(4), local |-> FALSE, protos |-> {}]
 
 \* the documented idiom  Ref(type.chooses({1: Sub()}))  : the selector hands out ONE packet instance (F3)
 SessSelector ==
@@ -41,6 +47,6 @@ SessSelector ==
      raws |-> [C0 |-> {<<1, 5, 6>>, <<1, 7, 8>>, <<0, 9>>}],
      kws |-> [C0 |-> {<<>>}],
      sets |-> [C0 |-> {[n |-> "t", v |-> IntV(0)]}],
-     appendval |-> IntV(4)]
+     appendval |-> IntV(4), local |-> FALSE, protos |-> {}]
 
 =============================================================================
